@@ -1,7 +1,7 @@
 """C05 - write-once, forward-only recording with atomic rejection (DrfChannel: AppendOnly, RejectAtomic)."""
 from . import chan_common as cc
 
-PREFIXES = ("C05-",)
+PREFIXES = ("C05-", "C04-file-outside", "final-file-set", "C01-stored-values", "C01-read-values", "C01-read-blocks")
 
 
 def run(ctx):
@@ -10,4 +10,4 @@ def run(ctx):
                 "non-increasing offsets / indices, overlapping blocks, offset past the end, mismatched lengths) and zero-length "
                 "writes; a byte-level hash of the whole channel directory and the writer getters are taken around every "
                 "rejected call; final files are hashed after every later call",
-           bad_rate=0.35, empty_rate=0.08, observe_pairs=10, nvec=2)
+           bad_rate=0.35, empty_rate=0.08, observe_pairs=10, nvec=2, capi_every=2)
